@@ -10,7 +10,8 @@ CHECKS = {
     "C04": [("R-ALLOC.who", "r_global", "run_alloc_who", ("quick", "thorough")),
             ("R-TMP", "r_tmp", "run", ("quick", "thorough"))],
     "C05": [("R-ALIAS", "r_alias", "run", ("quick", "thorough"))],
-    "C06": [("R-TABLES.c06", "r_tables", "run_c06", ("quick", "thorough"))],
+    "C06": [("R-TABLES.c06", "r_tables", "run_c06", ("quick", "thorough")),
+            ("R-TABIDX.digit", "r_tables", "run_digit_index", ("quick", "thorough"))],
     "C16": [("R-TABLES.c16", "r_tables", "run_c16", ("quick", "thorough"))],
     "C10": [("R-TABLES.logic", "r_tables", "run_logic", ("quick", "thorough"))],
     "C02": [("R-DIVZERO", "r_divzero", "run", ("quick", "thorough"))],
@@ -35,6 +36,7 @@ RULES = {
     "R-TABLES.c16": ("r_tables", "run_c16"),
     "R-TABLES.logic": ("r_tables", "run_logic"),
     "R-ALIAS": ("r_alias", "run"),
+    "R-TABIDX.digit": ("r_tables", "run_digit_index"),
 }
 
 EXPLANATION = {
@@ -88,6 +90,8 @@ ASSUMPTIONS = {
     "R-TABLES.c06": ["tables are read from the linked LLVM IR (clang's constant evaluation of the initialisers); definitions recomputed "
                      "with Python integers / 60-digit decimals", "MPN_SIZEINBASE witnesses emulate the macro's IEEE double multiply and "
                      "truncation; two of them were replayed against the real library (findings/sizeinbase)"],
+    "R-TABIDX.digit": ["an index is a byte if it is an (unsigned char) conversion, a load through unsigned char *, a getc-family result, "
+                       "or a variable all of whose assignments are such; EOF handling of getc results is not decided"],
     "R-TABLES.c16": ["tables are read from the linked LLVM IR; limit macros from `clang -E -dM` of each unit that defines them"],
     "R-TABLES.logic": ["bitwise operators are bit-parallel, so the 1-bit truth table determines the per-limb function"],
     "R-DIVZERO": ["the division family and each function's divisor parameter are taken from the manual (spec/division_api.tsv)",
